@@ -143,6 +143,14 @@ def scan(state, groups, tid):
     ev = [{"k": "Cfg", "tid": tid, "fam": state["fam"], "groups": sorted(groups), "par": cpar, "geometry": 1}]
     stats = {"points": 0, "jumps": 0, "pattern": None,
              "uclass": "ul<ur" if par["ul"] < par["ur"] else ("ul=ur" if par["ul"] == par["ur"] else "ul>ur")}
+    pmin = min((P["p"] for P in plats), default=0.0)
+    if len(plats) != 4 and pmin < 1e-6 * max(par["pl"], par["pr"]):
+        # strongly receding gases: the star region is next to a vacuum (p* below 1e-6 of the initial pressures); its two states
+        # differ by less than the resolution of a scan that measures against the initial states, so the contact cannot be located
+        # and no structural verdict is drawn (counted in the evidence as pattern "near-vacuum")
+        stats["evals"] = F.points
+        stats["pattern"] = "near-vacuum"
+        return [], stats
     if len(plats) != 4:
         # the grammar decides: emit the plateaus as anonymous regions
         for i, P in enumerate(plats):
